@@ -1,5 +1,14 @@
 package nbio
 
+import "net"
+
+type verifStreamAddr string
+
+func (a verifStreamAddr) Network() string { return "tcp" }
+func (a verifStreamAddr) String() string  { return string(a) }
+
+var _ net.Addr = verifStreamAddr("")
+
 // Exported constructor for harnesses in other packages (overlay only): a real
 // Conn bound to a unit engine whose executor is the given function.
 func VerifNewConn(execute func(f func())) *Conn {
@@ -10,3 +19,41 @@ func VerifNewConn(execute func(f func())) *Conn {
 	c, _ := w.verifAddStream(ConnTypeTCP)
 	return c
 }
+
+// VerifStream is a real Conn on a stream socket of the kernel model whose peer
+// has a receive window of `space` bytes (buffered regime); the harness plays
+// the peer and the poller: Drain makes room and lets the connection flush as
+// the poller would on EPOLLOUT, Wire is what the peer has received so far.
+type VerifStream struct {
+	C *Conn
+	f *vkFd
+	w *verifWorld
+}
+
+func VerifNewStream(space int) *VerifStream {
+	w := verifUnitEngine(Config{})
+	vk.regime = vkBuffered
+	c, f := w.verifAddStream(ConnTypeTCP)
+	c.lAddr = verifStreamAddr("local:80")
+	c.rAddr = verifStreamAddr("peer:4000")
+	f.sendSpace = space
+	return &VerifStream{C: c, f: f, w: w}
+}
+
+func (s *VerifStream) Wire() []byte { return append([]byte(nil), s.f.wire...) }
+
+// DrainAll: the peer keeps reading until nothing more arrives.
+func (s *VerifStream) DrainAll(space int) {
+	for i := 0; i < 64; i++ {
+		before := len(s.f.wire)
+		s.f.peerDrain(space - s.f.sendSpace)
+		if !s.C.closed {
+			_ = s.C.flush()
+		}
+		if len(s.f.wire) == before && (s.C.closed || len(s.C.writeList) == 0) {
+			return
+		}
+	}
+}
+
+func (s *VerifStream) Closed() bool { return s.C.closed }
